@@ -36,7 +36,7 @@ if r.returncode != 0:
 results = {}
 # checks with translators write source-derived definitions into lean/AdeptModel/Generated: give them a private copy of the Lean
 # project (with its build directory, 160 MB) so that the seeded change never reaches the shared tree, whatever runs in parallel
-TR = ("C01", "C04", "C09", "C12", "C14", "C17")
+TR = ("C01", "C04", "C05", "C09", "C12", "C14", "C17")
 private_lean = None
 if any(c.upper() in TR for c in checks):
     private_lean = "/tmp/seedrun_%s_lean" % sid
